@@ -180,6 +180,7 @@ func (in *Interp) visible(what string) {
 		return
 	}
 	in.preemptions++
+	in.schedLog = append(in.schedLog, fmt.Sprintf("g%d@%s->g%d", g.id, what, others[k-1].id))
 	in.switchTo(others[k-1])
 }
 
